@@ -1755,6 +1755,18 @@ class LeCreditBasedChannel(utils.EventEmitter):
 
         return await disconnection_result
 
+    def close_abandoned(self) -> None:
+        # Close a channel the peer has opened for a connect() whose caller gave up
+        self._change_state(self.State.DISCONNECTING)
+        self.flush_output()
+        self.send_control_frame(
+            L2CAP_Disconnection_Request(
+                identifier=self.manager.next_identifier(self.connection),
+                destination_cid=self.destination_cid,
+                source_cid=self.source_cid,
+            )
+        )
+
     def abort(self) -> None:
         if self.state in (self.State.CONNECTED, self.State.DISCONNECTING):
             self._change_state(self.State.DISCONNECTED)
@@ -1849,14 +1861,7 @@ class LeCreditBasedChannel(utils.EventEmitter):
                 == L2CAP_LE_Credit_Based_Connection_Response.Result.CONNECTION_SUCCESSFUL
             ):
                 self.destination_cid = response.destination_cid
-                self._change_state(self.State.DISCONNECTING)
-                self.send_control_frame(
-                    L2CAP_Disconnection_Request(
-                        identifier=self.manager.next_identifier(self.connection),
-                        destination_cid=self.destination_cid,
-                        source_cid=self.source_cid,
-                    )
-                )
+                self.close_abandoned()
             else:
                 self._change_state(self.State.CONNECTION_ERROR)
                 self.manager.on_channel_closed(self)
@@ -3031,6 +3036,12 @@ class ChannelManager:
         # Connect
         try:
             await channel.connect()
+        except asyncio.CancelledError:
+            # The caller gave up in the very moment the peer's answer arrived: nobody
+            # will ever own this channel, close it again
+            if channel.state == LeCreditBasedChannel.State.CONNECTED:
+                channel.close_abandoned()
+            raise
         except Exception:
             logger.exception('connection failed')
             del connection_channels[source_cid]
